@@ -425,6 +425,21 @@ pub fn generate(_ctx: &mut Ctx, seed: u64, i: usize, mode: &str) -> Case {
 }
 
 /// C12: 1-3 files, one of which has one tag deleted or duplicated
+/// files no grammar is registered for that share their LAST extension with a name registered as a whole (`go.work.sum` next
+/// to `go.sum`, `notes.mod` next to `go.mod`): they hold damaged tags and must be ignored, and their presence - before or
+/// after the registered file in the walk - must not change how the registered file is treated
+pub fn add_decoys(rng: &mut Rng, files: &mut Vec<(String, Option<String>)>) {
+    let mut extra = vec![];
+    for (path, _) in files.iter() {
+        let (dir, name) = match path.rfind('/') { Some(k) => (&path[..=k], &path[k + 1..]), None => ("", path.as_str()) };
+        if !["go.mod", "go.sum", "go.work"].contains(&name) || !rng.chance(2, 3) { continue; }
+        let last = name.rsplit('.').next().unwrap();
+        let decoy = [format!("{dir}go.work.{last}"), format!("{dir}notes.{last}"), format!("x.{last}"), format!("{dir}ago.{last}")][rng.below(4)].clone();
+        extra.push((decoy, Some("// <block name=\"decoy\">\nnot closed\n".to_string())));
+    }
+    for e in extra { if !files.iter().any(|f| f.0 == e.0) { files.push(e); } }
+}
+
 pub fn generate_unbalanced(_ctx: &mut Ctx, seed: u64, i: usize) -> Case {
     let mut rng = Rng::new(seed, i as u64);
     let exts = all_exts();
@@ -449,6 +464,7 @@ pub fn generate_unbalanced(_ctx: &mut Ctx, seed: u64, i: usize) -> Case {
         };
         files.push((path, Some(f.text)));
     }
+    add_decoys(&mut rng, &mut files);
     let mut walk: Vec<String> = files.iter().map(|f| f.0.clone()).collect();
     rng.shuffle(&mut walk);
     // scan, list-like (no validators matter) and diff mode (every line of every file changed)
@@ -500,8 +516,16 @@ pub fn generate_multi(_ctx: &mut Ctx, seed: u64, i: usize, flags: bool) -> Case 
         let opts = Opts { fancy: rng.chance(1, 5), rules: true, crlf: rng.chance(1, 8), lookalikes: rng.chance(1, 6) };
         let path = if ["Makefile", "makefile", "go.mod", "go.sum", "go.work"].contains(&ext) { format!("d{k}/{ext}") } else { format!("{}f{k}.{ext}", ["", "src/", "a b/"][rng.below(3)]) };
         let f = gen_file(&mut rng, l, &opts, &mut patterns);
+        // one file in eight has a backslash in its NAME (an ordinary character of a Unix file name), and half of those have a
+        // twin at the path the name would spell with a slash: two files, two report entries
+        if rng.chance(1, 8) && !path.contains('/') {
+            files.push((format!("gen\\{path}"), Some(f.text.clone())));
+            if rng.chance(1, 2) { files.push((format!("gen/{path}"), Some(f.text))); }
+            continue;
+        }
         files.push((path, Some(f.text)));
     }
+    add_decoys(&mut rng, &mut files);
     let mut walk: Vec<String> = files.iter().map(|f| f.0.clone()).collect();
     rng.shuffle(&mut walk);
     let (mut enabled, mut disabled) = (vec![], vec![]);
